@@ -14,10 +14,18 @@ use refmodels::gf2::BitVec;
 use serde_json::json;
 
 fn commute_check(ty: &dyn GenType, s: &BitVec) -> Result<u64, String> {
-    // jump∘step == step∘jump ; long_jump∘step == step∘long_jump ; jump∘long_jump == long_jump∘jump
+    commute_check_with(ty, s, false)
+}
+
+/// jump∘step == step∘jump ; long_jump∘step == step∘long_jump ; jump∘long_jump == long_jump∘jump, decided on
+/// the next 8 native outputs of the two objects (whether `==` agrees is C10's matter). With `loose` the
+/// start object is whatever `from_seed` builds from the bytes (no confirmation through the snapshot): the
+/// relations are between operations on one and the same start object, so they do not depend on which state
+/// that object holds - this is what remains decidable when the snapshot is not the plain state.
+pub fn commute_check_with(ty: &dyn GenType, s: &BitVec, loose: bool) -> Result<u64, String> {
     let wb = ty.info().word_bits;
     let run = |ops: &[LinOp]| -> Result<Box<dyn crate::subject::Gen>, String> {
-        let mut g = linear::make_state(ty, s)?;
+        let mut g = if loose { guarded(|| ty.from_seed(&s.to_bytes())).map_err(|o| format!("from_seed panicked: {:?}", o))? } else { linear::make_state(ty, s)? };
         for &o in ops {
             linear::apply_op(&mut g, o, wb)?;
         }
@@ -29,10 +37,12 @@ fn commute_check(ty: &dyn GenType, s: &BitVec) -> Result<u64, String> {
         ([LinOp::Jump, LinOp::LongJump], [LinOp::LongJump, LinOp::Jump], "jump/long_jump"),
     ];
     for (a, b, name) in pairs.iter() {
-        let ga = run(a)?;
-        let gb = run(b)?;
-        if ga.eq_dyn(gb.as_ref()) != Some(true) {
-            return Err(format!("{} do not commute", name));
+        let mut ga = run(a)?;
+        let mut gb = run(b)?;
+        let oa = guarded(|| (0..8).map(|_| native(&mut ga, wb)).collect::<Vec<u64>>()).map_err(|o| format!("stepping after {:?} panicked: {:?}", a.iter().map(|o| o.name()).collect::<Vec<_>>(), o))?;
+        let ob = guarded(|| (0..8).map(|_| native(&mut gb, wb)).collect::<Vec<u64>>()).map_err(|o| format!("stepping after {:?} panicked: {:?}", b.iter().map(|o| o.name()).collect::<Vec<_>>(), o))?;
+        if oa != ob {
+            return Err(format!("{} do not commute: the next outputs are {:x?} after {} and {:x?} after {}", name, &oa[..3], a.iter().map(|o| o.name()).collect::<Vec<_>>().join(" then "), &ob[..3], b.iter().map(|o| o.name()).collect::<Vec<_>>().join(" then ")));
         }
     }
     Ok(3)
@@ -54,6 +64,20 @@ pub fn run(reg: &dyn Registry, ctx: &Ctx) -> Outcome {
         let (t, j, l) = match (t, j, l) {
             (Ok(t), Ok(j), Ok(l)) => (t, j, l),
             (a, b, c) => {
+                // what remains decidable without state injection: the linearity-free relations between the
+                // operations, on objects built by from_seed, decided on outputs
+                let mut states: Vec<BitVec> = alphabet::w1(len).iter().map(|s| bits(s)).collect();
+                states.extend(alphabet::wz(len).iter().map(|s| bits(s)));
+                states.push(bits(&alphabet::ones(len)));
+                states.extend((0..32u64).map(|k| bits(&alphabet::bg_bytes(ctx.seed ^ 0x06F0, k, len))));
+                let res: Vec<(Result<u64, String>, &BitVec)> = states.par_iter().map(|s| (guarded(|| commute_check_with(*ty, s, true)).unwrap_or_else(|o| Err(format!("{:?}", o))), s)).collect();
+                for (r, s) in res {
+                    match r {
+                        Ok(k) => ctx.add("commutation_checks_without_injection", k),
+                        Err(e) if e.contains("do not commute") => ctx.violation(&format!("C06:{}:commute", info.name), &format!("{}: from_seed({}): {}", info.name, hex(&s.to_bytes()), e), json!({"kind":"commute-loose","type":info.name,"state":hex(&s.to_bytes())})),
+                        Err(_) => {}
+                    }
+                }
                 let step_panics = a.as_ref().err().map_or(false, |e| e.contains("panicked"));
                 let e = [a.err(), b.err(), c.err()].into_iter().flatten().collect::<Vec<_>>().join("; ");
                 if e.contains("panicked") && !step_panics {
